@@ -370,8 +370,85 @@ type tok struct {
 	data   [4]int64 // written by the holder: a second holder would race on it
 }
 
+// c18poolLong: ONE pool used for a long time (150k..300k calls, well past 2^16 and 2^17
+// Puts) by one or two goroutines that keep between 0 and 16 items at once: counters
+// and ring positions inside a re-implemented pool wrap here and nowhere else.
+func c18poolLong(c *core.Ctx) {
+	r := c.R
+	var p sync2.Pool[*tok]
+	p.New = func() *tok { return &tok{minted: true} }
+	ng := 1 + r.Intn(2)
+	total := r.Range(150000, 300000)
+	maxHeld := r.Range(6, 16)
+	var two, foreign, nilNew, puts atomic.Int64
+	var wg sync.WaitGroup
+	for w := 0; w < ng; w++ {
+		rr := r.Fork()
+		wg.Add(1)
+		go func() {
+			defer wg.Done()
+			var held []*tok
+			for i := 0; i < total/ng; i++ {
+				// long climbs and descents: the pool runs nearly empty and nearly full in turn
+				up := (i/(maxHeld*3))%2 == 0
+				if len(held) > 0 && (len(held) >= maxHeld || rr.Chance(1, 2) != up || rr.Chance(1, 8)) {
+					k := rr.Intn(len(held))
+					t := held[k]
+					held[k] = held[len(held)-1]
+					held = held[:len(held)-1]
+					t.data[0]++
+					t.owned.Store(0)
+					p.Put(t)
+					puts.Add(1)
+					continue
+				}
+				t := p.Get()
+				if t == nil {
+					nilNew.Add(1)
+					continue
+				}
+				if !t.minted {
+					foreign.Add(1)
+				}
+				if !t.owned.CompareAndSwap(0, 1) {
+					two.Add(1)
+					continue
+				}
+				t.data[1] = int64(i)
+				held = append(held, t)
+			}
+			for _, t := range held {
+				t.owned.Store(0)
+				p.Put(t)
+			}
+		}()
+	}
+	wg.Wait()
+	c.Count("pool_long_histories", 1)
+	c.Count("pool_puts", puts.Load())
+	c.Max("pool_max_puts_on_one_pool", puts.Load())
+	extra := map[string]any{"goroutines": ng, "calls": total, "max_items_held_at_once": maxHeld, "puts": puts.Load()}
+	if n := two.Load(); n > 0 {
+		c.Violate("pool:two-holders[long history]", fmt.Sprintf("%d Get calls returned an item that a Get caller still held (one pool, %d Puts so far)", n, puts.Load()), extra)
+		return
+	}
+	if n := foreign.Load(); n > 0 {
+		c.Violate("pool:invented-item[long history]", fmt.Sprintf("%d Get calls returned an item that was neither Put nor created by New", n), extra)
+		return
+	}
+	if n := nilNew.Load(); n > 0 {
+		c.Violate("pool:nil-with-New[long history]", fmt.Sprintf("%d Get calls returned nil although New is set", n), extra)
+		return
+	}
+	c.NonTrivial(core.Mix(c.Seed, uint64(total), 18))
+}
+
 func c18pool(c *core.Ctx) {
 	r := c.R
+	if c.Index%40 == 7 {
+		c18poolLong(c)
+		return
+	}
 	withNew := r.Chance(3, 4)
 	var p sync2.Pool[*tok]
 	if withNew {
